@@ -73,10 +73,13 @@ def correspondence(ctx):
                 kw["days"] = rng.randint(-40, 40)
             reqs.append("rd.mk " + L.kw_wire(kw)); exp.append(L.run(lambda: L.mkrd(kw), L.rd_wire))
             ctx.count("corr_mk_yearday")
+    reqs, exp = L.with_generated(reqs, exp)
     got = ctx.driver(reqs)
     for q, e, g in zip(reqs, exp, got):
         if e != g:
             ctx.mismatch(q.split()[0], q, e, g)
+        if q.startswith("rdgen."):
+            ctx.count("corr_generated_requests")
     ctx.traces += len(reqs)
     ctx.count("corr_requests", len(reqs))
 
